@@ -27,7 +27,7 @@ def cases(tier, seed):
     rng = np.random.default_rng(subseed("C02", seed))
     nrun = 3000 if tier == "quick" else 60000
     for i in range(nrun):
-        ps = gen.rand_spec(rng, gen.ALL_FAMILIES + ("exp_wall", "exp_wall", "qp_inf_region"), nmax=8, boxes=BOXES, starts=("interior", "face", "vertex", "outward"))
+        ps = gen.rand_spec(rng, gen.ALL_FAMILIES + ("exp_wall", "exp_wall", "qp_inf_region", "flat"), nmax=8, boxes=BOXES + ("all_fixed",), starts=("interior", "face", "vertex", "outward"))
         cfg = e2e.rand_cfg(rng)
         cfg["jac"] = gen.pick(rng, list(MODES))
         if i % 12 == 11:
